@@ -54,6 +54,7 @@ Example C17_expand_satisfiable :
   table_ok tbl = true /\ In e tbl /\ in_int (-7) = true /\
   expand tbl (lit "INTERDC_-7_CALL_RICH_ERROR") = Ok (lit "INTERDC_X_CALL_RICH_ERROR", AInt (-7)).
 Proof. vm_compute. intuition. Qed.
+Print Assumptions C17_expand_satisfiable.
 
 Theorem C17_expand_string : forall tbl e x,
   table_ok tbl = true -> In e tbl -> e_kind e = KString ->
@@ -110,6 +111,7 @@ Example C17_nonnumeric_satisfiable :
   expand [e] (lit "FLOOD_WAIT_abc") = Ok (lit "FLOOD_WAIT_abc", ANone) /\
   expand_unfixed [e] (lit "FLOOD_WAIT_abc") = Panic.
 Proof. vm_compute. intuition. Qed.
+Print Assumptions C17_nonnumeric_satisfiable.
 
 (* the pinned code (before the fix) panicked exactly in that case *)
 Theorem C17_refuted_before_fix : forall tbl s e,
@@ -228,6 +230,7 @@ Example C17_per_client_satisfiable :
   observe w 1 s_phone_migrate_x (AInt 7) = Some (Ok NoSuchDC) /\
   observe w 2 s_phone_migrate_x (AInt 7) = Some (Ok NoSuchDC).
 Proof. vm_compute. intuition. Qed.
+Print Assumptions C17_per_client_satisfiable.
 
 (* --- the request loop of one caller over several data centres -------------------------- *)
 
@@ -274,6 +277,7 @@ Example C17_live_satisfiable :
   = {| c_result := CValue (lit "answer-of-B"); c_addr := lit "B";
        c_writes := [(lit "A", lit "req"); (lit "B", lit "req")] |}.
 Proof. vm_compute. reflexivity. Qed.
+Print Assumptions C17_live_satisfiable.
 
 (* --- several callers migrated at once: the protocol of the repaired client, all interleavings --- *)
 
@@ -381,9 +385,11 @@ Example C17_concurrent_migrate_example :
     log s = [(0, 0); (0, 1); (0, 2); (1, 0); (1, 1); (2, 1); (2, 2)] /\
     length ex_run = 26 /\ measure ex_pol (init 3 0) = 45 /\ measure ex_pol s = 0.
 Proof. eexists. vm_compute. repeat split; reflexivity. Qed.
+Print Assumptions C17_concurrent_migrate_example.
 
 Example C17_concurrent_migrate_example_hypothesis : targets_serve ex_pol ex_dcs 3.
 Proof.
   intros a i x Hi Hp. unfold ex_pol in Hp. destruct (Nat.eqb a 0); [|discriminate].
   injection Hp as <-. destruct (Nat.ltb i 2); reflexivity.
 Qed.
+Print Assumptions C17_concurrent_migrate_example_hypothesis.
